@@ -131,10 +131,15 @@ def run_hist(ops, res, rc, via="template-moddir"):
                 if M:
                     os.remove(mp)
                     M = None
-            elif op == "foreign-magic":
+            elif op in ("foreign-magic", "foreign-legacy"):
                 if M and M["magic_ok"]:
                     data = open(mp, "rb").read()
                     data2 = data.replace(b"_magic_number = %d" % _st["MAGIC"], b"_magic_number = %d" % (_st["MAGIC"] - 1))
+                    if op == "foreign-legacy":
+                        # what a much older code generator wrote: magic number 5 and a module-level Cache built with
+                        # the signature of that time
+                        data2 = data.replace(b"_magic_number = %d" % _st["MAGIC"], b"_magic_number = 5")
+                        data2 = data2.replace(b"_enable_loop = ", b"_template_cache=cache.Cache(__name__, _modified_time)\n_enable_loop = ", 1)
                     if data2 == data:
                         res.violate("harness", "magic number line not found in module", replay_case=rc)
                     with open(mp, "wb") as f:
@@ -401,7 +406,7 @@ def run_race(case, res):
 
 
 # ------------------------------------------------------------------ plumbing
-OPS = ["src-newer", "src-equal", "src-older", "delete-module", "foreign-magic", "construct", "construct-writer"]
+OPS = ["src-newer", "src-equal", "src-older", "delete-module", "foreign-magic", "foreign-legacy", "construct", "construct-writer"]
 
 
 def gen_cases(tier, seed):
